@@ -513,8 +513,9 @@ def run(ctx):
                     'the numeric normal cdf of each backend is taken as is (its accuracy is property C04): results are compared against '
                     'the backend\'s own cdf at the model\'s arguments',
                     'sqrt of non-square inputs: python math.sqrt as proposer, every entry certified inside Coq by squaring (sqrt_tab_ok, 2^-50)',
-                    'hypotheses about the mathematical normal cdf named in props/C07.v (symmetry, monotonicity, positivity, log-concavity) '
-                    'for C07_ordering / C07_band_monotone / the 1-Phi form of the formulae; the Phi(-x) form is hypothesis-free']
+                    'the Gaussian integral (AsymptPhi.gauss_total_stmt: the concrete cdf NPhi x = 1/2 + int_0^x phi tends to 0 at minus '
+                    'infinity) is the single premise of C07_ordering_normal / C07_band_monotone_normal / positivity / Mills bound / '
+                    'log-concavity; symmetry and monotonicity of NPhi and all formula theorems are proved outright (Coquelicot)']
     ctx.assumptions += ['IEEE rounding is covered by the comparison tolerance (1e-9 relative on p-values); nan/overflow are not modelled '
                         'beyond nan = value below the cutoff', 'tails beyond 37 sigma are excluded, as in the property statement']
 
